@@ -4,6 +4,7 @@ Three-way: spec/Indexing.tla (CPython slice arithmetic, enumerated by TLC) = rea
 indexing (validates the transcription against the reference the property names) = cspuz arrays."""
 import json
 import multiprocessing as mp
+from harness.par import RobustPool
 
 from harness.common import Check, NPROC, chunks
 from harness.tlc import run_tlc, MachineryError
@@ -151,6 +152,19 @@ def work(recs):
                                     any(r[y, x].id - base != y * q + x for y in range(p) for x in range(q)):
                                 bad.append({"shape": [h, w], "key": f"reshape({p},{q})", "expected": "row-major",
                                             "observed": [v.id - base for v in r.data], "sig": {"kind": "reshape"}})
+                # a shape with another number of cells cannot preserve the elements: whatever reshape returns for it
+                # (instead of refusing) has lost or invented elements
+                for (p, q) in [(h, w - 1), (h - 1, w), (h + 1, w), (1, h * w - 1), (h * w + 1, 1), (0, w), (h, 0)]:
+                    if p < 0 or q < 0 or p * q == h * w:
+                        continue
+                    for src in (arr, arr.flatten()):
+                        n += 1
+                        try:
+                            r = src.reshape((p, q))
+                        except Exception:  # noqa
+                            continue
+                        bad.append({"shape": [h, w], "key": f"reshape({p},{q})", "expected": "refused (other number of cells)",
+                                    "observed": [v.id - base for v in r.data], "sig": {"kind": "reshape-wrong-size"}})
     return bad, n, nontriv, spec_vs_python
 
 
@@ -173,7 +187,7 @@ def run(tier, seed):
     res = run_tlc("MC_Index", "MC_Index", workdir=chk.dir, env={"TIER": tier}, timeout=1800)
     chk.add_tlc(res)
     recs = res.records
-    with mp.get_context("fork").Pool(NPROC) as pool:
+    with RobustPool(NPROC) as pool:
         outs = pool.map(work, chunks(recs, NPROC * 4))
     nontriv = 0
     for bad, n, nt, svp in outs:
